@@ -228,8 +228,12 @@ class FakeLock:
 class SteppedQueue(_queue.Queue):
     """The real queue.Queue (storage, order, put are the library's); only waiting on an empty queue is replaced:
     a blocking get that would wait leaves the thread body through Yield."""
+    expire = False       # set by a harness around ONE call: a timed wait on an empty queue runs out (time passes, nothing arrives)
+
     def get(self, block=True, timeout=None):
         if self.empty():
+            if block and timeout is not None and SteppedQueue.expire:
+                raise _queue.Empty
             if block:
                 raise Yield()
             raise _queue.Empty
